@@ -10,7 +10,7 @@ the table cost of the state's class, and the input circuit to be unchanged.
 """
 from .. import core, impl, sweep, models
 
-CLAUSES = {"state", "cost", "uncoupled", "args-mutated", "raised", "unknown-gate", "no-class"}
+CLAUSES = {"state", "cost", "uncoupled", "args-mutated", "raised", "unknown-gate", "no-class", "mutated-after-return"}
 ONE = ("i", "x", "y", "z", "h", "s", "sdg")
 TWO = ("cx", "cz", "swap")
 
